@@ -305,7 +305,24 @@ func (s *Sim) genAsks(appID string) Op {
 						break
 					}
 				case 3:
-					// asks for a type the placeholder does not have at all
+					// asks for a type the placeholder does not have at all; half of the time one that the queue path
+					// limits, and more of it than the limit leaves (such an ask can never be allocated the normal way)
+					if q := s.appQueue(appID); q != "" && r.Bool(0.5) {
+						em := s.conf.effMax(q)
+						done := false
+						for _, t := range resTypes {
+							if _, has := a.Res[t]; !has {
+								if mv, ok := em[t]; ok {
+									a.Res[t] = mv + 1
+									done = true
+									break
+								}
+							}
+						}
+						if done {
+							break
+						}
+					}
 					for _, t := range resTypes {
 						if _, ok := a.Res[t]; !ok {
 							a.Res[t] = int64(r.Range(1, 2))
